@@ -282,3 +282,80 @@ class T1TagAdversary(nfc.tag.tt1.Type1Tag):
         if nondet_bool():
             raise nfc.tag.tt1.Type1TagCommandError(nfc.tag.TIMEOUT_ERROR)
         return nondet_bytearray(128, 128)
+
+
+from specs.ndef_map import t12_view
+
+
+class TagImage(object):
+    """Abstract view of a Type 1/2 memory reader together with the tag behind it (the refinement by the real
+    Type2TagMemoryReader is proved separately, C01/tt2.reader.*): `img` is the linear memory image the NDEF code
+    works on (what was read, with pending modifications), `mem` what the tag holds.  synchronize() writes the
+    units (pages of `unit` octets) that differ, in ascending order; the field may be lost after any of them, so
+    every state img[0:unit*j] + mem[unit*j:] must satisfy the C03 frame and, for C02, the cut-point condition."""
+    def __init__(self, img, off, end, a, b, unit, goal, check_cut=False):
+        self.img = img
+        self.mem = img
+        self.mem0 = img
+        self.off, self.end, self.a, self.b = off, end, a, b
+        self.unit = unit
+        self.goal = goal
+        self.check_cut = check_cut
+        self.syncs = 0
+
+    def __getitem__(self, key):
+        require(key >= 0 and key < len(self.img), 'memory image index inside the tag memory')
+        return self.img[key]
+
+    def __setitem__(self, key, value):
+        if isinstance(key, slice):
+            require(key.start >= 0 and key.start <= key.stop and key.stop <= len(self.img),
+                    'memory image slice inside the tag memory')
+            require(len(value) == key.stop - key.start, 'slice assignment of identical length')
+            self.img = self.img[0:key.start] + bytes(value) + self.img[key.stop:]
+        else:
+            require(key >= 0 and key < len(self.img), 'memory image index inside the tag memory')
+            require(value >= 0 and value <= 255, 'octet value')
+            self.img = self.img[0:key] + bytes([value]) + self.img[key + 1:]
+
+    def synchronize(self):
+        j = nondet_int(0, len(self.img) // self.unit)
+        mid = self.img[0:self.unit * j] + self.mem[self.unit * j:]
+        # C03: whatever prefix of the pending units has reached the tag, only octets of the NDEF message area
+        # (from the TLV's length field to the end of the data area, reserved range excluded) differ from before
+        require(mid[0:self.off + 1] == self.mem0[0:self.off + 1], 'C03: nothing before the NDEF length field changes')
+        require(mid[self.end:] == self.mem0[self.end:], 'C03: nothing behind the data area changes')
+        if self.check_cut:
+            require(cut_ok(t12_view(mid, self.off, self.end, self.a, self.b),
+                           t12_view(self.mem0, self.off, self.end, self.a, self.b), self.goal),
+                    'C02: field lost after any prefix of this synchronize()')
+        self.mem = self.img
+        self.syncs = self.syncs + 1
+
+
+class T2PageTag(nfc.tag.tt2.Type2Tag):
+    """A Type 2 Tag as ghost memory behind the page commands: READ returns 16 octets from the addressed page
+    of the selected sector, WRITE replaces one page (4 octets) atomically; a write that changes nothing is never
+    needed (interface obligation: C03 page-granular write-back of modified pages only)."""
+    def __init__(self, mem):
+        self.mem = mem
+        self.cur = 0
+        self.writes = 0
+
+    def sector_select(self, sector):
+        self.cur = sector
+        return sector
+
+    def read(self, page):
+        addr = self.cur * 1024 + (page % 256) * 4
+        if addr + 16 > len(self.mem):
+            raise nfc.tag.tt2.Type2TagCommandError(nfc.tag.tt2.INVALID_PAGE_ERROR)
+        return bytearray(self.mem[addr:addr + 16])
+
+    def write(self, page, data):
+        addr = self.cur * 1024 + (page % 256) * 4
+        require(len(data) == 4 and addr + 4 <= len(self.mem), 'WRITE addresses one page of the tag')
+        require(bytes(data) != self.mem[addr:addr + 4], 'only pages whose content differs are written')
+        self.mem = self.mem[0:addr] + bytes(data) + self.mem[addr + 4:]
+        self.writes = self.writes + 1
+        return True
